@@ -3,9 +3,9 @@
    derivation of the grammar, keywords / names / step text / comments / descriptions / doc strings
    carry the stated text, and the composition (C03_conservation): the AST read in source order is exactly
    the list of elements of the source's lines, each once, in order, under the parent the order implies --
-   keyword lines, tags, table rows, and the non-blank lines of descriptions and doc-string contents.
-   Not in the element list: blank lines inside free text (text lemmas) and the doc-string delimiters
-   (C13 + correspondence; DESIGN 6.C03). *)
+   keyword lines, tags, table rows, doc-string opening delimiters (with media type), and the non-blank lines
+   of descriptions and doc-string contents.  Not in the element list: blank lines inside free text (text
+   lemmas; DESIGN 6.C03). *)
 From Coq Require Import List Bool Arith NArith.
 Import ListNotations.
 Require Import Kinds Automaton PyStr Line Matcher Ast Builder Pipeline PipelineFacts Dialects
@@ -72,7 +72,8 @@ Print Assumptions C03_step.
    the AST, read in source order (tags, keyword line, then children: `doc_elems`), is exactly the concatenation
    of the elements of those tokens (`tok_elems`: keyword line -> keyword as written + trimmed rest + location;
    tag line -> one tag per item with its column; table row -> its cells; free-text line (description or doc-string
-   content) -> its non-blank text), and the document's comment list is
+   content) -> its non-blank text; opening doc-string delimiter -> delimiter, media type, location; a closing
+   delimiter -> nothing), and the document's comment list is
    exactly the comment lines.  So every feature / rule / background / scenario / examples / step / row / tag /
    comment line of the source appears exactly once, in order, and nothing else appears. *)
 Theorem C03_conservation : forall stop m b src d m1 b1 n, wf_ms m -> parse_source stop m b src = POk d m1 b1 n ->
@@ -84,7 +85,7 @@ Theorem C03_conservation : forall stop m b src d m1 b1 n, wf_ms m -> parse_sourc
 Proof. exact source_conservation. Qed.
 Print Assumptions C03_conservation.
 
-(* non-vacuity: a document with every kind of element is accepted; its 23 elements and 1 comment *)
+(* non-vacuity: a document with every kind of element is accepted; its 24 elements and 1 comment *)
 From Coq Require Import String.
 Definition c03_sample : str := s2l
   "# note
@@ -119,7 +120,7 @@ Example C03_conservation_sample :
   match new_matcher Dialects.dialects (s2l "en") with
   | Some m =>
     match parse_source false m (new_builder 0) c03_sample with
-    | POk d _ _ _ => List.length (doc_elems d) = 23 /\ List.length (doc_comments d) = 1
+    | POk d _ _ _ => List.length (doc_elems d) = 24 /\ List.length (doc_comments d) = 1
                      /\ hd_error (doc_elems d) = Some (ETag (mk_loc 2 (Some 1)) (s2l "@a"))
     | _ => False
     end
